@@ -132,6 +132,53 @@ def check_one(dc, st, raw, r, twin):
             return
 
 
+def apply_inplace(dc, obj, mv, path):
+    """changes exactly the leaf `path` of the real packet obj IN PLACE to the value it has in the PV mv"""
+    cur_obj, cur_val = obj, mv
+    for step in path[:-1]:
+        if isinstance(step, str):
+            cur_obj, cur_val = getattr(cur_obj, step), cur_val.vals[step]
+        else:
+            cur_obj, cur_val = cur_obj[step], cur_val[step]
+
+    def conv(v):
+        if isinstance(v, ir.PV):
+            return ir.construct(dc.mod, dc.pkts[v.name], v, 'kw')
+        if isinstance(v, list):
+            return [conv(x) for x in v]
+        return v
+    last = path[-1]
+    if last == '+':
+        cur_obj.append(conv(cur_val[-1]))
+    elif isinstance(last, str):
+        setattr(cur_obj, last, conv(cur_val.vals[last]))
+    else:
+        cur_obj[last] = conv(cur_val[last])
+
+
+def check_inplace(dc, st, pv, make, what, case):
+    """two equal packets; ONE leaf of the second is changed in place (at any depth): they must become unequal
+    and the first one must not have changed with it"""
+    for path, mv in leaf_mutations(pv):
+        try:
+            p, q = make(), make()
+        except Exception:
+            return
+        try:
+            apply_inplace(dc, q, mv, path)
+        except Exception:
+            continue
+        st.inc('inplace_mutations')
+        if ir.extract(p, dc.P, dc.pkts) != pv:
+            st.violate('in-place change of one packet shows in another', '%s: changing %r of the second packet in place changed the first to %r | %s' % (
+                what, path, ir.extract(p, dc.P, dc.pkts), dc.src.replace('\n', '; ')), case, dc.snippet('# ' + what))
+            return
+        a = expect(dc, st, '%s; second.%r changed in place; first == second' % (what, path), safe(lambda: p == q), False, case, '== after an in-place change')
+        b = expect(dc, st, '%s; second.%r changed in place; first != second' % (what, path), safe(lambda: p != q), True, case, '!= after an in-place change')
+        if not (a and b):
+            return
+
+
 def check_described(st):
     """described field: the visible values decide equality (constructed vs parsed)"""
     with mk.World() as w:
@@ -161,10 +208,21 @@ def check_decl(dc, st, tier, only=None):
     tw = dc.world.module(ir.pkt_src(twin), header=mk.HEADER + 'from %s import *\n' % dc.mod.__name__)
     setattr(dc.mod, twin['name'], getattr(tw, twin['name']))
     if only is not None:
+        if only.get('inplace') == 'defaults':
+            d = refsem.defaults(dc.P)
+            check_inplace(dc, st, d, lambda: dc.K(), 'two default-constructed packets', dc.case(inplace='defaults'))
+            return
         check_one(dc, st, only['raw'], ea.ref_parse(dc.P, only['raw']), twin)
+        if only.get('inplace') == 'parsed':
+            r = ea.ref_parse(dc.P, only['raw'])
+            if r[0] == 'ok':
+                check_inplace(dc, st, r[1].pv, lambda: dc.K.unpack(only['raw']), 'two packets parsed from %r' % only['raw'], dc.case(raw=only['raw'], inplace='parsed'))
         return
+    d = refsem.defaults(dc.P)
+    check_inplace(dc, st, d, lambda: dc.K(), 'two default-constructed %s()' % dc.P['name'], dc.case(inplace='defaults'))
     budget = 300 if tier == 'quick' else 1500
     seen = set()
+    nin = 0
     for raw, r in ea.inputs_for(dc, budget):
         if r[0] == 'ok':
             key = repr(r[1].pv)
@@ -175,13 +233,16 @@ def check_decl(dc, st, tier, only=None):
                 st.inc('skipped_large')      # 255-element lists of empty elements: quadratic and uninformative
                 continue
         check_one(dc, st, raw, r, twin)
+        if r[0] == 'ok' and nin < 4 and len(raw) >= 2:
+            nin += 1
+            check_inplace(dc, st, r[1].pv, lambda raw=raw: dc.K.unpack(raw), 'two packets parsed from %r' % raw, dc.case(raw=raw, inplace='parsed'))
 
 
 def run(tier):
     st = ea.run(MODULE, tier)
     cov = ea.coverage(st, 'every declaration of the alphabet incl. all positioned/aligned/Em/class-align ones; for every distinct accepted value: '
                           'parsed==parsed, constructed==parsed, every single-leaf mutation at any depth is unequal, twin class / None / non-packets unequal, '
-                          'repr is a str, nothing raises; states = distinct (declaration, value)', {'mutations': st.n.get('mutations', 0)})
+                          'repr is a str, nothing raises; two equal packets (default-constructed / parsed from the same bytes) with one leaf of the second changed IN PLACE must become unequal while the first stays as it was; states = distinct (declaration, value)', {'mutations': st.n.get('mutations', 0), 'inplace_mutations': st.n.get('inplace_mutations', 0)})
     return {'stats': st, 'coverage': cov, 'assumptions': ['values of mutated copies are built with the constructor (no validation needed for ==)']}
 
 
